@@ -70,6 +70,35 @@ class PipeWriter:
         return default
 
 
+async def listen_args(S, t):
+    """what `run()` passes to asyncio.start_server: the connection callback and the StreamReader limit of every
+    connection (the server is not started: start_server is replaced for the duration of the call)"""
+    rec = {}
+
+    class FakeServer:
+        async def __aenter__(self):
+            return self
+
+        async def __aexit__(self, *a):
+            return False
+
+        async def serve_forever(self):
+            return None
+
+    async def fake_start_server(cb, *a, **k):
+        rec["cb"] = cb
+        rec["limit"] = k.get("limit", 2 ** 16)
+        return FakeServer()
+
+    orig = S.asyncio.start_server
+    S.asyncio.start_server = fake_start_server
+    try:
+        await t.run()
+    finally:
+        S.asyncio.start_server = orig
+    return rec.get("cb", t.handle_client), rec.get("limit", 2 ** 16)
+
+
 def end_of(caught):
     if not caught:
         return "?"
@@ -78,6 +107,8 @@ def end_of(caught):
         return "index"
     if "AssertionError" in c:
         return "assertion"
+    if "Separator is" in c:
+        return "line-too-long"
     if "binascii.Error" in c or "Error('Odd-length" in c or "Error('Non-hexadecimal" in c or "UnicodeDecodeError" in c:
         return "badline"
     return "raised:" + c.split("communication: ")[-1].split("(")[0]
@@ -102,10 +133,11 @@ async def _drive(real, script):
         t = S.TCPUDSServerTransport(real.server, uri)
         base = clock.t
         t.last_time_active = base
-        s_reader, c_reader = asyncio.StreamReader(), asyncio.StreamReader()
+        handle_client, limit = await listen_args(S, t)
+        s_reader, c_reader = asyncio.StreamReader(limit=limit), asyncio.StreamReader()
         s_writer = PipeWriter(c_reader)          # the server writes to the client
         c_writer = PipeWriter(s_reader)          # the client writes to the server
-        task = asyncio.ensure_future(t.handle_client(s_reader, s_writer))
+        task = asyncio.ensure_future(handle_client(s_reader, s_writer))
         transport = TCPLinesTransport(uri, c_reader, c_writer)
         client = UDSClient(transport, timeout=CLIENT_TIMEOUT, max_retry=0)
         cfg = UDSRequestConfig(max_retry=0, timeout=CLIENT_TIMEOUT)
